@@ -31,7 +31,7 @@ BOUND = {"H": math.sqrt(2), "KL": math.sqrt(math.log(2))}
 
 def scenarios(tier):
     k = 1 if tier == "quick" else 10
-    return [("hdddm", 260 * k), ("cdbd", 160 * k)]
+    return [("hdddm", 1000 * k), ("cdbd", 600 * k)]
 
 
 def gen(rng, scenario, tier):
